@@ -323,6 +323,41 @@ def hexs(blocks):
 
 # ---- probes (never verdicts) -------------------------------------------------
 
+def gf2_rank(vectors):
+    """Rank over GF(2) of integers seen as bit vectors (xor basis keyed by highest set bit)."""
+    basis = {}
+    for v in vectors:
+        while v:
+            h = v.bit_length() - 1
+            b = basis.get(h)
+            if b is None:
+                basis[h] = v
+                break
+            v ^= b
+    return len(basis)
+
+
+def rank_probe(run):
+    """NOT a verdict: GF(2) rank of the draws of one multi-word size taken together.  A fair generator spans
+    min(m, 2^n) dimensions (a deficiency d has probability about 2^-(d^2)); a generator whose words are linearly
+    tied to one another (raw xorshift / LFSR / LCG bits) spans far fewer although every observation the
+    property names still holds.  Reported in the evidence and as a NOTE line only."""
+    worst = None
+    byn = {}
+    for d in run["draws"]:
+        if d["n"] in (7, 8, 9) and not d["warn"] and len(d["blocks"]) == nwords(d["n"]):
+            byn.setdefault(d["n"], []).append(table_int(d["blocks"]))
+    for n, vs in byn.items():
+        vs = vs[:1024]
+        full = min(len(vs), 1 << n)
+        if full < 48:
+            continue
+        r = gf2_rank(vs)
+        if worst is None or full - r > worst["deficiency"]:
+            worst = {"n": n, "draws": len(vs), "rank": r, "full_rank": full, "deficiency": full - r}
+    return worst
+
+
 def probes(run):
     draws = run["draws"]
     pre = sum(1 for d in draws if d["s1"] - d["s0"] > 1)
@@ -340,4 +375,5 @@ def probes(run):
                 words[b] = 1
                 ones += bin(b).count("1")
                 bits += 64
-    return {"draws": len(draws), "preempted_draws": pre, "words64": nw, "dup_words64": dupw, "ones": ones, "bits": bits}
+    return {"draws": len(draws), "preempted_draws": pre, "words64": nw, "dup_words64": dupw, "ones": ones, "bits": bits,
+            "rank": rank_probe(run)}
